@@ -351,12 +351,20 @@ def function_form_case(idx, rng, P, rep):
     oa, ob = A(), B()
     calls = []
 
-    def f(a, a2, b):
-        calls.append((a, a2, b))
-    param.depends(oa.param.a, oa.param.a2, ob.param.b, watch=True)(f)
+    # the dependencies in any order (owners interleaved or not), positional or by keyword
+    order = ['a', 'a2', 'b']
+    rng.shuffle(order)
+    npos = rng.randint(0, 3)
+    pobj = dict(a=oa.param.a, a2=oa.param.a2, b=ob.param.b)
+
+    def f(*args, **kws):
+        vals = dict(zip(order[:npos], args))
+        vals.update(kws)
+        calls.append((vals['a'], vals['a2'], vals['b']))
+    param.depends(*[pobj[n] for n in order[:npos]], watch=True, **{n: pobj[n] for n in order[npos:]})(f)
     model = dict(a=1.0, a2=2.0, u=3.0, b=4.0)
     VAL = [1.0, 2.0, 1, True, 5.5, float('nan'), 4.0]
-    desc = dict(form='function', deps=['A.a', 'A.a2', 'B.b'])
+    desc = dict(form='function', deps=[('A.' if n != 'b' else 'B.') + n for n in order], positional=npos)
     kinds = []
     for _ in range(rng.randint(4, 12)):
         calls.clear()
@@ -400,7 +408,7 @@ def function_form_case(idx, rng, P, rep):
         elif calls and not all(_same(x, y) for x, y in zip(calls[-1], (model['a'], model['a2'], model['b']))):
             rep.violation('C06/function-form/stale-arguments', f'called with {calls[-1]}, current values {model}', case=desc)
         rep.count('invocations', len(calls))
-    rep.case(('function-form', tuple(kinds)), nontrivial=True)
+    rep.case(('function-form', tuple(order), npos, tuple(kinds)), nontrivial=True)
 
 
 def _same(x, y):
